@@ -1408,6 +1408,11 @@ impl Sim {
                 CEv::Trig => o.ent.map(|e| e.to_bits()),
                 CEv::Ord => None,
             };
+            // Server-side logic must never see an event attributed to a client that is not connected.
+            let known = o.client == SERVER || self.clients.iter().any(|c| c.sess.as_ref().and_then(|s| s.ce) == Some(o.client));
+            if !known {
+                self.violate("C09", "event_from_dead_client", format!("server observed client event seq {} from client entity {} which is not connected", o.seq, o.client));
+            }
             if let Some(e) = self.cev.iter_mut().find(|e| e.seq == o.seq) {
                 e.seen.push((o.client.to_bits(), ent));
             } else {
